@@ -35,6 +35,21 @@ type c11Obs struct {
 	err      error
 	summary  string
 	file     *impl.ScriptFile
+	late     int // writes to the caller's writers made after the call had returned
+}
+
+// obsWriter is the caller's output / log writer: it notices writes that arrive after the call returned
+// (a goroutine of the call that outlives it and still uses the caller's writers).
+type obsWriter struct {
+	o   *c11Obs
+	buf bytes.Buffer
+}
+
+func (w *obsWriter) Write(p []byte) (int, error) {
+	if w.o.returned {
+		w.o.late++
+	}
+	return w.buf.Write(p)
 }
 
 type c11Target struct {
@@ -128,25 +143,28 @@ func c11Exec(cs fw.Case) *fw.Fail {
 	body := func() {
 		o := &c11Obs{file: impl.NewScriptFile(c.Src, c.Script)}
 		obs = o
+		out, log := &obsWriter{o: o}, &obsWriter{o: o}
 		switch c.API {
 		case "parse":
-			p := impl.ParseFile(o.file)
-			o.err = p.Err
-			po := parseObs{errs: p.Err != nil, log: p.Log}
-			if p.Err == nil {
-				po.dump, _ = impl.Dump(p.Prog)
+			prog, err := bcl.ParseFile(o.file, bcl.OptOutput(out), bcl.OptLogger(log))
+			o.returned = true
+			o.err = err
+			po := parseObs{errs: err != nil, log: log.buf.String()}
+			if err == nil {
+				po.dump, _ = impl.Dump(prog)
 			}
 			o.summary = fmt.Sprintf("errs=%v log=%q dump=%x", po.errs, po.log, po.dump)
 		case "interpret":
-			r := impl.InterpretFile(o.file)
-			o.err = r.Err
-			o.summary = r.Summary()
+			bl, bi, err := bcl.InterpretFile(o.file, bcl.OptOutput(out), bcl.OptLogger(log))
+			o.returned = true
+			o.err = err
+			o.summary = impl.Ran{Blocks: bl, Binding: bi, Err: err, Out: out.buf.String(), Log: log.buf.String()}.Summary()
 		case "unmarshal":
 			var t c11Target
-			var out, log bytes.Buffer
-			err := bcl.UnmarshalFile(o.file, &t, bcl.OptOutput(&out), bcl.OptLogger(&log))
+			err := bcl.UnmarshalFile(o.file, &t, bcl.OptOutput(out), bcl.OptLogger(log))
+			o.returned = true
 			o.err = err
-			o.summary = fmt.Sprintf("err=%v target=%+v out=%q log=%q", err, t, out.String(), log.String())
+			o.summary = fmt.Sprintf("err=%v target=%+v out=%q log=%q", err, t, out.buf.String(), log.buf.String())
 		}
 		o.returned = true
 	}
@@ -161,6 +179,9 @@ func c11Exec(cs fw.Case) *fw.Fail {
 		}
 		if e.Deadlock {
 			return "leak", "goroutines started by the call are blocked forever after it returned: " + strings.Join(e.Leaked, "; ")
+		}
+		if o.late > 0 {
+			return "late-write", fmt.Sprintf("a goroutine started by the call outlived it: %d writes to the caller's output/log writer after the call had returned", o.late)
 		}
 		if o.file.Closes != 1 {
 			return "close", fmt.Sprintf("Close called %d times (reads %d)", o.file.Closes, o.file.Reads)
@@ -327,7 +348,7 @@ func init() {
 		Level: "model_checking",
 		Rule: "stateless model checking of the real ParseFile/InterpretFile/UnmarshalFile pipeline (package bcl rewritten at check time so that its channel operations, go statements and select go through the controlled scheduler mc/vsched): " +
 			"inputs of 5 classes x 2 (valid; syntax error in the first / last chunk; lexical failure in the first chunk with 6 more chunks pending / in the last chunk), each under every reader script of a bounded family (1-3 chunks cut at token and mid-token offsets; <=2 non-default answers among zero-byte read, data+EOF, error, data+error) and tokens-buffer sizes {source value, 1, 2}; " +
-			"for each (input, script) ALL schedules of caller, reader, parser and lexer goroutines with <=B preemptions (quick 1, thorough 2; 3 for single-chunk scripts) are executed, and in addition ALL interleavings without any bound, pruned by a causal-history state key (quick: for scripts of <=2 answers through ParseFile; thorough: for every case, capped at 3x10^6 executions each). Oracle on every execution: quiescence without deadlock, the call returned, no goroutine left, Close count = 1, the delivered read error is the returned error, <=3 reads after the read delivering a lexical failure, outcome identical to the in-memory API on the delivered bytes. " +
+			"for each (input, script) ALL schedules of caller, reader, parser and lexer goroutines with <=B preemptions (quick 1, thorough 2; 3 for single-chunk scripts) are executed, and in addition ALL interleavings without any bound, pruned by a causal-history state key (quick: for scripts of <=2 answers through ParseFile; thorough: for every case, capped at 3x10^6 executions each). Oracle on every execution: quiescence without deadlock, the call returned, no goroutine left and none writing to the writers of the caller after the return, Close count = 1, the delivered read error is the returned error, <=3 reads after the read delivering a lexical failure, outcome identical to the in-memory API on the delivered bytes. " +
 			"states/transitions = executions (each a distinct schedule).",
 		Subs:           []*fw.Sub{subC11},
 		BudgetQuick:    100,
